@@ -5,8 +5,7 @@
    histories hstep / hrun with snapshots).  Both that model and the store-level transcription of
    merge_adm / _update_node_delegations / unmerge_adm / snapshot / rollback (Model/Cbm14Store.v) are compared
    with the real code on every run (harness/c14.py, Model/Cbm14Check.v, Model/Cbm14SpecCheck.v).
-   eqv: same elements, class, properties and delegations, contributors as a set, same connections;
-   eqv_noflag: the same ignoring networkx's 'contraction' mark on connections. *)
+   eqv: same elements, class, properties and delegations, contributors as a set, same connections. *)
 From Coq Require Import List NArith Bool Permutation.
 From FIM Require Import Model.Cbm14Spec Proofs.Cbm14Assoc Proofs.Cbm14Merge Proofs.Cbm14Unmerge Proofs.Cbm14Inv
      Proofs.Cbm14Hist Proofs.Cbm14Dec.
@@ -32,9 +31,8 @@ Theorem C14_merge_connections : forall C A C' e,
   smerge C A = Some C' ->
   gete e (edges C') =
   match gete e (edges C), gete e (adm_edges A) with
-  | Some (d, f), Some _ => Some (d, true)
-  | Some (d, f), None => Some (d, f)
-  | None, Some d => Some (d, false)
+  | Some d, _ => Some d
+  | None, Some d => Some d
   | None, None => None
   end.
 Proof. exact smerge_get_edge. Qed.
@@ -93,34 +91,21 @@ Print Assumptions C14_order_independent_refuted.
 (* ---- unmerge is the inverse of merge ----
    FULL statement (the property as written):
      wf_cbm C -> wf_adm A -> not_contributor (adm_id A) C -> smerge C A = Some C' -> eqv (sunmerge C' (adm_id A)) C
-   It is FALSE of the faithful model and of the code in two ways, each with a witness replayed on the
-   implementation by the harness (known findings F1, F2): *)
-Theorem C14_unmerge_inverse_contraction_refuted :
-  exists C A C', wf_cbm C /\ wf_adm A /\ not_contributor (adm_id A) C /\ no_new_inner_edges C A /\
-                 smerge C A = Some C' /\ ~ eqv (sunmerge C' (adm_id A)) C.
-Proof. exact unmerge_inverse_contraction_refuted. Qed.
-Print Assumptions C14_unmerge_inverse_contraction_refuted.
-
+   It is FALSE of the faithful model and of the code (witness replayed on the implementation by the harness,
+   known finding F2): connections carry no contributor record *)
 Theorem C14_unmerge_inverse_edge_refuted :
   exists C A C', wf_cbm C /\ wf_adm A /\ not_contributor (adm_id A) C /\
-                 smerge C A = Some C' /\ ~ eqv_noflag (sunmerge C' (adm_id A)) C.
+                 smerge C A = Some C' /\ ~ eqv (sunmerge C' (adm_id A)) C.
 Proof. exact unmerge_inverse_edge_refuted. Qed.
 Print Assumptions C14_unmerge_inverse_edge_refuted.
 
-(* partial: the merged model brings no connection between two elements already present (connections carry no
-   contributor record in the code) - then unmerge restores everything up to the contraction marks ... *)
+(* partial: the merged model brings no connection between two elements already present - then unmerge restores
+   the previous combined model *)
 Theorem C14_unmerge_inverse_partial : forall C A C',
   wf_cbm C -> wf_adm A -> not_contributor (adm_id A) C -> no_new_inner_edges C A ->
-  smerge C A = Some C' -> eqv_noflag (sunmerge C' (adm_id A)) C.
+  smerge C A = Some C' -> eqv (sunmerge C' (adm_id A)) C.
 Proof. exact unmerge_inverse. Qed.
 Print Assumptions C14_unmerge_inverse_partial.
-
-(* ... and exactly when, in addition, no connection of C is also a connection of the merged model *)
-Theorem C14_unmerge_inverse_exact_partial : forall C A C',
-  wf_cbm C -> wf_adm A -> not_contributor (adm_id A) C -> no_new_inner_edges C A -> no_shared_edge C A ->
-  smerge C A = Some C' -> eqv (sunmerge C' (adm_id A)) C.
-Proof. exact unmerge_inverse_exact. Qed.
-Print Assumptions C14_unmerge_inverse_exact_partial.
 
 (* ---- all histories of merge / unmerge / snapshot / rollback: the current combined model and every saved
    snapshot satisfy the invariant w.r.t. the delegation models currently merged (h_ms) ---- *)
@@ -173,14 +158,11 @@ Example C14_ex_order :
                getn 10 (nodes C) = Some (mkC 1 [(5, 6)] [1; 2] (Some (2, 7)) None) /\
                getn 10 (nodes C') = Some (mkC 1 [(5, 6)] [2; 1] (Some (2, 7)) None).
 Proof. exact ex_order. Qed.
-Example C14_ex_unmerge_exact :
-  wf_cbm CA1 /\ wf_adm A4 /\ not_contributor (adm_id A4) CA1 /\ no_new_inner_edges CA1 A4 /\ no_shared_edge CA1 A4 /\
-  exists C', smerge CA1 A4 = Some C' /\ hasn 15 (nodes C') = true /\ hasn 15 (nodes (sunmerge C' 4)) = false.
-Proof. exact ex_unmerge_exact. Qed.
-Example C14_ex_unmerge_noflag :
+Example C14_ex_unmerge :
   wf_cbm CA1 /\ wf_adm A2 /\ not_contributor (adm_id A2) CA1 /\ no_new_inner_edges CA1 A2 /\
-  exists C', smerge CA1 A2 = Some C' /\ gete (10, 11) (edges C') = Some ((4, []), true).
-Proof. exact ex_unmerge_noflag. Qed.
+  exists C', smerge CA1 A2 = Some C' /\ hasn 13 (nodes C') = true /\ hasn 13 (nodes (sunmerge C' 2)) = false /\
+             gete (10, 11) (edges C') = Some (4, []).
+Proof. exact ex_unmerge. Qed.
 Example C14_ex_double_speaker : smerge CA1 D2 = None.
 Proof. exact ex_double_speaker. Qed.
 Example C14_ex_history :
